@@ -68,6 +68,9 @@ pub fn next_solution_append<'a>(bip: BuiltInPredicate,
 
         } // for
 
+        // A Nil after the last term keeps make_linked_list() from
+        // splicing in a last term which is itself a list.
+        if out_terms.len() > 0 { out_terms.push(Unifiable::Nil); }
         let out = make_linked_list(false, out_terms);
         let last_term = terms[length - 1].clone();
 
